@@ -291,6 +291,7 @@ def check_sym_program(prog, feed_seed, acc=None, bindings=(1, 2, 3, 5, 7)):
                 feeds.append(rng.integers(-4, 9, size=shp).astype(np.int32))
             else:
                 feeds.append(rng.integers(0, 2, size=shp).astype(np.bool_))
+        feeds = [np.asarray(f) for f in feeds]
         try:
             ref32 = jaxutil.eager(fn, feeds)
         except Exception:
